@@ -48,6 +48,22 @@ impl FileOperations for WriteAheadLog {
         let fs_block_size = FileSystem::block_size(&path)?;
         let default_block_size = WAL_BLOCK_SIZE.next_multiple_of(fs_block_size);
 
+        // A log that was created and never forced is an empty file (the header block is written
+        // by the first force): it holds no record. Reading a header from it would fail, and a
+        // database that crashed before its first commit could never be opened again.
+        if file.metadata()?.len() == 0 {
+            let mut wal = Self {
+                header: BlockZero::alloc(0, default_block_size),
+                current_block: None,
+                flush_queue: VecDeque::new(),
+                file,
+                block_size: default_block_size,
+            };
+            // Make it a well-formed empty log on disk (block zero), as a force would.
+            wal.perform_flush()?;
+            return Ok(wal);
+        }
+
         // Read block 0 (global header)
         let mut header_buf: BlockZero = BlockZero::new(default_block_size);
         file.seek(SeekFrom::Start(0))?;
